@@ -80,7 +80,8 @@ example : ∀ ov ∈ exObjs, lookup ov.1.name exValues = some (.atom ov.2) := by
   simp only [exObjs, List.mem_cons, List.mem_nil_iff, or_false] at h
   rcases h with rfl | rfl | rfl | rfl | rfl <;> simp [lookup, exValues]
 
-/-- **C01, nested-structure tier.** Requests/responses/structures built from `A_INT32` / `A_UINT32` VALUE parameters and
+/-- **C01, nested-structure tier.** Requests/responses/structures built from `A_INT32` / `A_UINT32` VALUE parameters,
+    CODED-CONST parameters over the same diag-coded types (service and data identifiers) and
     arbitrarily deeply nested STRUCTURE-valued parameters, each positioned explicitly (BYTE-POSITION relative to
     the enclosing structure's first byte) or implicitly (behind its predecessor); sibling short names distinct.
     `(Trees.pair ts).val` is the value tree (nested dictionaries). If the strict encoder returns a PDU with no
@@ -93,16 +94,17 @@ theorem C01_roundtrip_struct (ts : List Tree) (hneed : Trees.need ts + 2 ≤ mod
     ∃ cursor, decodeMessage none (Trees.toParams ts) pdu true = .ok (.dict (Trees.pair ts).val, cursor) :=
   tree_roundtrip_msg ts hneed hok hn trig pdu henc
 
-/-! non-vacuity: a structure at offset 2 inside the request, containing a sub-byte object and a nested structure
+/-! non-vacuity: a UDS-like request — CODED-CONST service id and data identifier, then a structure at offset 4, containing a sub-byte object and a nested structure
     positioned explicitly inside it; the last top-level parameter sits *before* the structure -/
 def exTrees : List Tree :=
-  [.int ⟨"sid", none, none, none, true, 8, .uint32⟩ (.int 0x22),
-   .struct "s" (some 2) [.int ⟨"a", none, some 2, some .sm, true, 5, .int32⟩ (.int (-9)),
+  [.const ⟨"sid", none, none, none, true, 8, .uint32⟩ (.int 0x22),
+   .const ⟨"did", none, none, none, true, 16, .uint32⟩ (.int 0xf190),
+   .struct "s" (some 4) [.int ⟨"a", none, some 2, some .sm, true, 5, .int32⟩ (.int (-9)),
                           .struct "inner" (some 3) [.int ⟨"x", none, none, none, false, 16, .int32⟩ (.int (-2))],
                           .int ⟨"b", some 1, none, some .onec, true, 16, .int32⟩ (.int (-256))],
-   .int ⟨"y", some 1, none, none, true, 8, .int32⟩ (.int 127)]
+   .int ⟨"y", some 3, none, none, true, 8, .int32⟩ (.int 127)]
 example : (encodeMessage none (Trees.toParams exTrees) (.dict (Trees.pair exTrees).val) none true).toOption
-    = some ([0x22, 0x7f, 0x64, 0xfe, 0xff, 0xfe, 0xff], 0) := by decide +kernel
+    = some ([0x22, 0xf1, 0x90, 0x7f, 0x64, 0xfe, 0xff, 0xfe, 0xff], 0) := by decide +kernel
 example : Trees.need exTrees + 2 ≤ modelFuel := by decide
 
 example : int32Known (some .sm) = true ∧ Spec.representable (some .sm) 9 (-255) := by
